@@ -75,7 +75,7 @@ def main(ctx):
               "decorated_handler_invoked", "user_error_reported", "protocol_error_raised",
               "shape:none", "shape:args", "shape:kwargs", "shape:both",
               "unsub_in_subscribe_callback", "callee_variant_transitions", "handler_kinds_events",
-              "pattern_subscription_events", "encoded_event_cases", "callable_kinds", "details_name_in_kwargs"):
+              "pattern_subscription_events", "encoded_event_cases", "callable_kinds", "details_name_in_kwargs", "application_api_cases"):
         ctx.require(n)
 
 
@@ -701,6 +701,11 @@ def _sig(v):
     return "C11|%s|%s" % (v[0], v[1])
 
 
+def role_broker():
+    from autobahn.wamp import role
+    return role.RoleBrokerFeatures()
+
+
 def _job_kinds(a):
     """every kind of handler callable x check_types x details on ONE subscription id: plain function,
     function returning a Deferred/Future that fires later, coroutine function - each once as it is
@@ -818,6 +823,49 @@ def _job_kinds(a):
         if exc is not None or seen_topics != want:
             bad("event-details-topic", "subscription %r (match=%s), EVENT with Details.topic=%r: handler saw "
                 "details.topic %r, expected %r (raised %r)" % (pattern, match, published, seen_topics, want, exc))
+    # ---- Twisted only: handlers attached through the Application convenience API
+    # (@app.subscribe; plain and generator-style / inlineCallbacks handlers on one topic): every
+    # handler's body runs for an EVENT, in the order of declaration
+    if env.get("fw") == "tx":
+        from autobahn.twisted.wamp import Application
+        from autobahn.wamp import types as _T2
+        app = Application("com.app")
+        seen_app = []
+
+        @app.subscribe("com.app.topic")
+        def first_plain(x):
+            seen_app.append(("plain", x))
+
+        @app.subscribe("com.app.topic")
+        def second_generator(x):
+            seen_app.append(("generator", x))
+            yield None
+
+        @app.subscribe("com.app.topic")
+        def third_plain(x):
+            seen_app.append(("plain3", x))
+        sess = app(_T2.ComponentConfig(realm="realm1"))
+        tr = H.ScriptedTransport()
+        H._register_itransport()
+        esc = None
+        try:
+            sess.onOpen(tr)
+            sess.onMessage(M.Welcome(99, {"broker": role_broker()}))
+            for _ in range(3):
+                subs_ = [m for m in tr.sent if isinstance(m, M.Subscribe)]
+                if len(subs_) and all(m.request != getattr(sess, "_last_acked", None) for m in subs_[-1:]):
+                    sess.onMessage(M.Subscribed(subs_[-1].request, 700))
+                    sess._last_acked = subs_[-1].request
+            sess.onMessage(M.Event(700, 1, args=["v"]))
+        except Exception as e:      # noqa
+            esc = e
+        evals += 1
+        stats["application_api_cases"] += 1
+        want = [("plain", "v"), ("generator", "v"), ("plain3", "v")]
+        nsub = len([m for m in tr.sent if isinstance(m, M.Subscribe)])
+        if esc is not None or nsub != 3 or seen_app != want:
+            bad("application-api-handlers", "Application with three @app.subscribe handlers on one topic (the second "
+                "generator-style): %d SUBSCRIBE sent, EVENT ran %r expected %r, raised %r" % (nsub, seen_app, want, esc))
     # ---- an event whose published keyword arguments contain the very name under which the handler
     # asked for the event details: the handler still gets the EventDetails it requested under that
     # name (and every other published keyword argument unchanged)
